@@ -7,10 +7,12 @@ import (
 	"flag"
 	"fmt"
 	"os"
+	"os/exec"
 	"path/filepath"
 	"runtime/debug"
 	"sort"
 	"strconv"
+	"strings"
 	"time"
 
 	"gtsverif/core"
@@ -121,6 +123,47 @@ func main() {
 	}
 	out := rep.Decide(kf)
 
+	// thorough tier: the same rules under the other build configurations, and
+	// the checker's own self-test on recorded one-instance-broken variants.
+	extraEv := map[string]interface{}{}
+	selfOK := true
+	if *tier == "thorough" && len(out.Violations) == 0 && *overlay == "" && only == "" {
+		self, _ := os.Executable()
+		cfgs := map[string]string{}
+		for _, env := range [][]string{{"GOARCH=386"}, {"GOOS=windows"}, {"GOOS=darwin"}} {
+			keys := childKeys(self, *repo, *verif, *prop, env)
+			var extra []string
+			for k := range keys {
+				if _, isKnown := out.KnownWhat[k]; !isKnown {
+					extra = append(extra, k)
+				}
+			}
+			sort.Strings(extra)
+			name := strings.Join(env, ",")
+			if len(extra) == 0 {
+				cfgs[name] = "same verdict as the host configuration"
+			} else {
+				cfgs[name] = "reports " + strings.Join(extra, " ")
+				for _, k := range extra {
+					rep.Bad("CONFIG", name+"|"+k, "-", "under build configuration "+name+" the check reports "+k)
+				}
+			}
+		}
+		extraEv["build_configurations"] = cfgs
+		results, ok := runSelfTest(self, *repo, *verif, *prop, nil)
+		selfOK = ok
+		extraEv["selftest"] = results
+		caught := 0
+		for _, r := range results {
+			if r.Status == "caught" || r.Status == "silent-ok" {
+				caught++
+			}
+			fmt.Printf("SELFTEST %-40s %s %s\n", r.ID, r.Status, r.Detail)
+		}
+		extraEv["selftest_summary"] = fmt.Sprintf("%d of %d recorded variants gave the expected verdict", caught, len(results))
+		out = rep.Decide(kf)
+	}
+
 	if *list {
 		for _, o := range rep.Obs {
 			fmt.Printf("%-10s %-11s %s  %s  -- %s\n", o.Rule, o.Status, o.Key, o.Pos, o.Detail)
@@ -172,7 +215,7 @@ func main() {
 	}
 	wall := time.Since(t0).Seconds()
 	if !*noEvidence {
-		if err := rep.WriteEvidence(filepath.Join(*verif, "evidence"), *tier, seed, wall, out, nil); err != nil {
+		if err := rep.WriteEvidence(filepath.Join(*verif, "evidence"), *tier, seed, wall, out, extraEv); err != nil {
 			fmt.Println("evidence:", err)
 			os.Exit(2)
 		}
@@ -180,5 +223,25 @@ func main() {
 	if len(out.Violations) > 0 {
 		os.Exit(1)
 	}
+	if !selfOK {
+		fmt.Println("SELFTEST-FAILED: the checker did not give the expected verdict on its own recorded variants; its verdict on the tree is not to be believed")
+		os.Exit(2)
+	}
 	fmt.Printf("OK property=%s obligations=%d known=%d wall=%.1fs\n", *prop, len(rep.Obs), len(out.Known), wall)
+}
+
+// childKeys runs the property in a child process under extra environment and
+// returns the keys it reports as violation/undecided.
+func childKeys(self, repo, verif, prop string, env []string) map[string]bool {
+	cmd := exec.Command(self, "-repo", repo, "-verif", verif, "-property", prop, "-tier", "quick", "-no-evidence", "-list")
+	cmd.Env = append(os.Environ(), env...)
+	b, _ := cmd.CombinedOutput()
+	m := map[string]bool{}
+	for _, line := range strings.Split(string(b), "\n") {
+		f := strings.Fields(line)
+		if len(f) >= 3 && (f[1] == "violation" || f[1] == "undecided") {
+			m[f[2]] = true
+		}
+	}
+	return m
 }
